@@ -65,6 +65,10 @@ func main() {
 			fmt.Fprintln(os.Stderr, "no such function")
 			os.Exit(2)
 		}
+		if os.Getenv("ECHVERIF_RAW") != "" {
+			fn.WriteTo(os.Stdout)
+			break
+		}
 		p.Dump(os.Stdout, fn)
 	case "list":
 		ids := make([]string, 0)
